@@ -12,7 +12,8 @@ for d in sorted(glob.glob(os.path.join(ROOT, 'seeded', '*', 'meta.json'))):
     for prop, c in m['checks'].items():
         first = (c.get('first') or {})
         rows.append('| %s | %s | %s | %s | %s | %s |' % (name, ', '.join(f.replace('cnfgen/', '') for f in files), prop,
-                    'yes' if c['caught'] else '**no**', '+'.join(c['kinds']) or '-', (first.get('what') or '')[:110].replace('|', '/')))
+                    'yes' if c['caught'] else ('n/a (no longer breaks the property: see meta.json)' if m.get('obsolete') else '**no**'),
+                    '+'.join(c['kinds']) or '-', (first.get('what') or '')[:110].replace('|', '/')))
 out = ['# Seeded changes and the checks that catch them', '',
        'Each directory holds `patch.diff` (the change, written by an independent sub-agent that saw only the property text and a scratch worktree),',
        '`demo.py` (fails with the change, passes without) and `meta.json` (what it needs to manifest, what was run to confirm it:',
